@@ -587,7 +587,7 @@ def c17(ck):
     import time
     rng = ck.rng
     thorough = ck.tier == "thorough"
-    cps = list(gen.BOUNDARY_CPS) + [0x7F, 0x80, 0x7FF, 0x800, 0xFFFF, 0x10000, 0x10FFFF, 0xD7FF, 0xE000]
+    cps = list(gen.BOUNDARY_CPS) + [0x7F, 0x80, 0x7FF, 0x800, 0xFFFF, 0x10000, 0x10FFFF, 0xD7FF, 0xE000] + gen.WS_CPS
     cps += [gen.rand_cp(rng, 1) for _ in range(5000 if thorough else 1200)]
     cases = []
     for c in cps:
@@ -596,7 +596,7 @@ def c17(ck):
         e = gen.hx(gen.enc(c))
         nb = gen.hx(gen.enc(rng.choice(gen.BOUNDARY_CPS)))
         cases += ["enc %d" % c, "pop %s%s" % (e, nb), "pop %s" % e, "cnt %s%s%s" % (nb, e, nb), "idx %s%s%s 1" % (nb, e, nb), "idx %s%s%s 2" % (nb, e, nb),
-                  "idx %s%s 2" % (nb, e), "pfx %s%s %s%s" % (e, nb, e, e), "pfx %s%s%s %s%s%s" % (nb, e, nb, nb, e, e), "trim 2020%s20" % e]
+                  "idx %s%s 2" % (nb, e), "pfx %s%s %s%s" % (e, nb, e, e), "pfx %s%s%s %s%s%s" % (nb, e, nb, nb, e, e), "trim 2020%s20" % e, "trim %s2078" % e, "trim 20%s%s" % (e, e)]
     cases = sorted(set(cases))
 
     def oracle(case, io):
@@ -819,6 +819,15 @@ FAULT_CORPUS = [
     "16 32 1 raw b:78202d680d",
     "16 32 2 raw b:6d696420610d",
     "4 4 0 raw b:61626364;b:65;b:0d;b:1b5b41",
+    # Tab with the cursor INSIDE the line (the completion goes to the end of the text), with blanks after the cursor, with an argument
+    "16 32 1 raw b:6865;b:1b5b44;b:09;b:0d",
+    "16 32 1 raw b:68652020;b:1b5b44;b:1b5b44;b:1b5b44;b:09;b:0d",
+    "16 32 1 raw b:206865;b:1b5b44;b:09;b:78;b:0d",
+    # a handler that writes, changes the prompt and is rejected by a hand-written processor (odd history size); literal format strings
+    "24 33 1 raw b:646f207361622070322078710d",
+    "24 33 1 raw b:646f2067312073780d;b:1b5b41;b:08;b:0d",
+    # recall of a line into a smaller room, edit, resubmit; Down past the newest
+    "6 32 1 raw b:6162630d;b:78;b:1b5b41;b:1b5b44;b:08;b:0d;b:1b5b41;b:1b5b42;b:1b5b42",
 ]
 
 
@@ -836,7 +845,8 @@ def c14(ck):
     decl_corpus = [dl(1, "help"), dl(1, "help aaa"), dl(1, "help bbb"), dl(1, "help status"), dl(1, "help nope"), dl(1, "bbb"), dl(1, "nope"),
                    dl(2, "help test"), dl(2, "help base1 get cmd"), dl(2, "base1 -l 3 get -h"), dl(2, "test a"), dl(2, "test -j t a b"),
                    dl(2, "base1 --level 300 set x"), dl(2, "base2 num 5 xy"), dl(2, "test a b c d"), dl(2, "test --nope"), dl(2, "test -Z"),
-                   dl(0, "ge") + ";b:09", dl(3, "help опция")]
+                   dl(0, "ge") + ";b:09", dl(3, "help опция"),
+                   "40 64 1 d0 b:67652020;b:1b5b44;b:1b5b44;b:1b5b44;b:09;b:0d", "40 64 1 d4 b:6578;b:1b5b44;b:09;b:0d"]
     for k, s_ in enumerate(sets[4:], start=4):
         if thorough or k < 8:
             decl_corpus.append(dl(k, "help"))
@@ -1068,6 +1078,9 @@ def c11(ck):
         except UnicodeDecodeError:
             w = base
         lead = b" " * rng.choice([0, 0, 0, 1, 2])
+        if rng.randrange(12) == 0:
+            # a word that BEGINS with white space other than the ASCII blank is still one word (and matches nothing)
+            lead += chr(rng.choice(gen.WS_CPS)).encode("utf-8") + b" " * rng.choice([0, 0, 1])
         trail = b" " * rng.choice([0, 0, 0, 1, 3])
         extra = rng.choice([b"", b"", b"", b" x", b"x y"])
         text = lead + w + extra + trail
@@ -1107,7 +1120,8 @@ def c11(ck):
         last = io.split(" ")[-2]
         req, text, cur = last.split(":")
         if req != reqs[int(case.rsplit("tr:", 1)[1])]:
-            return "generator and implementation disagree about the request word (%s vs %s)" % (reqs[int(case.rsplit("tr:", 1)[1])], req)
+            return ("the word the property completes (the line without blanks after the cursor and without leading ASCII blanks, if it is a single word) is %s, "
+                    "the implementation formed the completion request %s" % (reqs[int(case.rsplit("tr:", 1)[1])], req))
         # reconstruct the typed word from the case to make sure the offered candidates correspond to the request
         got = "%s:%s" % (text, cur)
         if got != want[case]:
@@ -1367,7 +1381,7 @@ def c16(ck):
     for line in ["help", "help echo", "echo -h", "echo --help a", "x -vh", "he", "quiet -- -h"]:
         ses.append("24 32 1 raw b:%s;b:09;b:0d;b:1b5b41;b:1b5b42;b:0d" % gen.hx(line.encode()))
     for k, s_ in enumerate(sets):
-        if k < (len(sets) if thorough else 8):
+        if k < (len(sets) if thorough else 14):
             lines = [declgen.rand_decl_line(rng, s_) for _ in range(6)] + ["help", declgen.q((declgen.all_names(s_) or ["x"])[0]) + " --help"]
             ses.append(lines_to_session(k, lines, cap=100))
             # every command with nothing after its name, and with every positional but the last: "missing required argument" by its
